@@ -489,6 +489,15 @@ fn string_from_utf8''')]},
     {'name': 'Q5 VecIter stops tracing its vector', 'prop': 'C18', 'expect': 'Q5 / ObjVecIter.iterable',
      'edits': [(OBJ, "impl GcManaged for ObjVecIter {\n    fn mark(&self) {\n        self.iterable.mark();\n    }\n\n    fn blacken(&self) {\n        self.iterable.blacken();\n    }",
                 "impl GcManaged for ObjVecIter {\n    fn mark(&self) {}\n\n    fn blacken(&self) {}")]},
+    {'name': 'L6 return_impl no longer forgets a throw site in the returning function (regression of bd46585)', 'prop': 'C17', 'expect': 'L6 / return_impl updates error_ip',
+     'edits': [(VM, "        let recorded_site = self.active_fiber().error_ip;\n        if let (Some(frame), Some(site)) = (returning, recorded_site) {\n            if frame.closure.function.chunk.code.as_ptr_range().contains(&site) {\n                self.active_fiber_mut().error_ip = None;\n            }\n        }\n",
+                "        let _ = returning;\n")]},
+    {'name': 'L4 unwind_stack no longer re-points the throw site when frames are discarded (regression of c99966a)', 'prop': 'C17', 'expect': 'L4 / error_ip is given an address only by',
+     'edits': [(VM, "            let call_site = self.active_fiber().frames[handler.frame_count - 1].ip;\n            self.active_fiber_mut().error_ip = Some(call_site);\n",
+                "            let _call_site = self.active_fiber().frames[handler.frame_count - 1].ip;\n")]},
+    {'name': 'L4 a native error path records a throw site', 'prop': 'C17', 'expect': 'L4 / error_ip is given an address only by',
+     'edits': [(VM, "    fn call_impl(&mut self) -> Result<(), Error> {\n        let arg_count = self.read_byte() as usize;",
+                "    fn call_impl(&mut self) -> Result<(), Error> {\n        self.active_fiber_mut().error_ip = Some(self.ip);\n        let arg_count = self.read_byte() as usize;")]},
     # ---- round-2 rules ------------------------------------------------------------------------------
     {'name': 'X8 in_try_block restored only after the catch block', 'prop': 'C08', 'expect': 'X8 / exactly the try body',
      'edits': [(COMP, "        self.end_scope();\n        self.compiler_mut().in_try_block = prev_in_try_block;\n\n        self.emit_byte(OpCode::PopExcHandler as u8);",
